@@ -14,6 +14,9 @@ Two parts (DESIGN.md 2.6):
     (piece lengths 2 .. 16 MiB, 32 MiB in the thorough tier; file sizes aimed at 1 / 4 / 8 MiB read windows) and payloads
     with DUPLICATE CONTENT (independent copies, 48 KiB .. 3 MiB, piece lengths 16 KiB .. 4 MiB), creators' and reference
     metafiles, intact and damaged, root and parent, judged by the same `judge`.
+    TEXT VERSUS BYTES (TEXT_RULE): payloads whose names are not stable under Unicode normalisation / glob expansion (NAME_SHAPES:
+    NFD names, equivalent names side by side with different and with identical content, glob metacharacters) and payloads whose
+    recorded hash strings are valid UTF-8 with a multi-byte character (aimed_utf8_strings; recipes in harness/data/utf8_digests.json).
 A `mode` ("C04" | "C05" | "C16") selects which disk states are generated and which observable is judged.
 """
 import os
@@ -1342,6 +1345,8 @@ def load_utf8_recipes(ctx=None, budget=6.0):
     """{class: [recipe]} from the data file, every recipe re-checked (the digest is recomputed here; a recipe that does not qualify
        is dropped and reported).  Without the file: a short search of the cheap SHA-1 classes only (noted)."""
     import json
+    if DATA_FILE in _RECIPES:
+        return _RECIPES[DATA_FILE]
     out = {k: [] for k in UTF8_CLASSES}
     try:
         with open(DATA_FILE) as fd:
@@ -1358,9 +1363,11 @@ def load_utf8_recipes(ctx=None, budget=6.0):
                     ctx.broken.append(f"harness/data/utf8_digests.json: recipe {r} of class {k} does not give a valid-UTF-8 non-ASCII digest")
                 continue
             out[k].append(r)
+    _RECIPES[DATA_FILE] = out
     return out
 
 
+_RECIPES = {}
 REUSE_SALT = 0x5EED0C05
 REUSE_PLANS = {          # how one held Checker object is asked, state after state (cycled)
     "results()": ["results()"],
@@ -1589,22 +1596,48 @@ NAME_SHAPES = {
     # the payload itself has a decomposed name (directory; single file)
     "nfd-payload-directory": (_nfd("r\u00e9sum\u00e9"), [("a.bin",), ("d", "b.bin"), (_nfd("\u00fc"),)]),
     "nfd-single-file": (_nfd("caf\u00e9.bin"), [()]),
-    # canonically / compatibility-equivalent names side by side as DIFFERENT files: composed and decomposed é, the three spellings of
-    # A-ring (U+00C5, U+212B ANGSTROM SIGN, A + U+030A), a directory in both forms, ligature / circled / full-width characters
+    # canonically / compatibility-equivalent names side by side as DIFFERENT files with DIFFERENT content:
+    #  0,1: U+00E9 / e+U+0301   2,3,4: U+00C5 / U+212B ANGSTROM SIGN / A+U+030A   5,6: a directory U+00F1 / n+U+0303
+    #  7,8: ligature fi + "le.txt" / file.txt   9: circled one   10: full-width "full"   11,12: U+00F6 / o+U+0308
+    #  13,14: U+2126 OHM SIGN / U+03A9   15,16: U+00B5 MICRO SIGN / U+03BC
     "equivalent-names-side-by-side": ("p", [("\u00e9",), ("e\u0301",), ("\u00c5",), ("\u212b",), ("A\u030a",), ("\u00f1", "x"),
                                             ("n\u0303", "x"), ("\ufb01le.txt",), ("file.txt",), ("\u2460",),
-                                            ("\uff46\uff55\uff4c\uff4c",)]),
-    # characters that mean something to glob / fnmatch / shells / regular expressions
-    "glob-metacharacters": ("p[1]", [("a[1].bin",), ("st*r.txt",), ("wh?t",), ("{x,y}",), ("[!a]",), ("d[0-9]", "f*"), ("a1.bin",),
-                                     ("(z)+$",)]),
+                                            ("\uff46\uff55\uff4c\uff4c",), ("\u00f6",), ("o\u0308",), ("\u2126",), ("\u03a9",),
+                                            ("\u00b5",), ("\u03bc",)]),
+    # the same with IDENTICAL content in every group of equivalent names (files of equal size get the same bytes, see layout_scenario):
+    # damage in one spelling is hidden from a checker that maps its name to another one
+    "equivalent-names-identical-twins": ("p", [("\u00e9",), ("e\u0301",), ("\u00c5",), ("\u212b",), ("A\u030a",), ("\u00f1", "x"),
+                                               ("n\u0303", "x"), ("\ufb01le.txt",), ("file.txt",)]),
+    # characters that mean something to glob / fnmatch / shells / regular expressions, next to the names they would match (identical
+    # content):  0,1: a[1].bin / a1.bin   2,3: st*r.txt / star.txt   4,5: wh?t / what   6,7: d[0-9]/f* / d5/f1
+    "glob-metacharacters": ("p", [("a[1].bin",), ("a1.bin",), ("st*r.txt",), ("star.txt",), ("wh?t",), ("what",), ("d[0-9]", "f*"), ("d5", "f1")]),
+    # ... in the payload name and without a name they would match
+    "glob-payload-name": ("p[1]", [("a[1].bin",), ("d*", "b?.bin"), ("{x,y}",), ("[!a]",), ("(z)+$",), ("plain",)]),
 }
+EQUIVALENT_SIZES = [B + 1, B + 2, 5, 6, 7, B, 2 * B + 3, 30, 31, 1, 2, 40, 41, 8, 9, 10, 11]
+TWIN_SIZES = [B + 1, B + 1, 5, 5, 5, B, B, 30, 30]
+GLOB_SIZES = [B + 1, B + 1, 20, 20, 5, 5, B + 9, B + 9]
+
+
+def name_damage(shape, items):
+    """damage on the files of NAME_SHAPES[shape] given by their position in that list -> description for apply_desc (whose indices
+       count the files in raw-byte order of the components, the order of Scenario.files)"""
+    comps = NAME_SHAPES[shape][1]
+    order = sorted(range(len(comps)), key=lambda i: [c.encode("utf-8", "surrogateescape") for c in comps[i]])
+    return [(d[0], order.index(d[1])) + tuple(d[2:]) for d in items]
+
+
 NAME_LABELS = {
     "nfd-file-and-directory": "names: decomposed (NFD) file and directory names on disk",
     "nfd-payload-directory": "names: the payload directory itself has a decomposed (NFD) name",
     "nfd-single-file": "names: single-file payload with a decomposed (NFD) name",
     "equivalent-names-side-by-side": "names: canonically / compatibility-equivalent names (NFC and NFD, U+00C5 / U+212B / A+U+030A, "
                                      "ligature, circled, full-width) as different files side by side",
-    "glob-metacharacters": "names: glob / regular-expression metacharacters in file, directory and payload names",
+    "equivalent-names-identical-twins": "names: equivalent names (NFC / NFD / singleton / ligature) side by side with IDENTICAL content, "
+                                        "damage in one spelling only",
+    "glob-metacharacters": "names: glob metacharacters in file and directory names next to the names they match (identical content), damage "
+                           "in the metacharacter names only",
+    "glob-payload-name": "names: glob / regular-expression metacharacters in the payload name and in names nothing else matches",
 }
 
 
@@ -1614,7 +1647,11 @@ def layout_scenario(base, content_seed, pl, sizes, single, kinds, shape=None):
     rng = random.Random(content_seed)
     if shape in NAME_SHAPES:
         name, comps = NAME_SHAPES[shape]
-        return Scenario(base, rng, pl=pl, name=name, tree={c: rng.randbytes(s) for c, s in zip(comps, sizes)}, kinds=kinds)
+        content = {}            # files of equal size: independent copies of the same bytes
+        for s in sizes:
+            if s not in content:
+                content[s] = rng.randbytes(s)
+        return Scenario(base, rng, pl=pl, name=name, tree={c: bytes(bytearray(content[s])) for c, s in zip(comps, sizes)}, kinds=kinds)
     if shape:
         return Scenario(base, rng, pl=pl, name="data", tree={SAME_NAME_TREES[shape]: rng.randbytes(sizes[0])}, kinds=kinds)
     if single:
@@ -1645,10 +1682,21 @@ def aimed_layout_list(mode):
     out.append((NAME_LABELS["nfd-payload-directory"], 32768, [32768 + 1, 9, 32768], False, [("flip", 2, 32767)], named, "nfd-payload-directory"))
     out.append((NAME_LABELS["nfd-single-file"], 16384, [2 * 16384 + 9], False, [("flip", 0, 2 * 16384 + 8)], V2_KINDS + ["v1", "ref-v1"],
                 "nfd-single-file"))
-    out.append((NAME_LABELS["equivalent-names-side-by-side"], 16384, [16384 + 1, 16384 + 2, 5, 6, 7, 16384, 2 * 16384 + 3, 30, 31, 1, 2], False,
-                [("flip", 1, 16384), ("rm", 6)], named, "equivalent-names-side-by-side"))       # flip in e+U+0301, U+00F1/x removed
-    out.append((NAME_LABELS["glob-metacharacters"], 16384, [16384 + 1, 20, 5, 6, 7, 16384 + 9, 16384 + 1, 3], False,
-                [("flip", 3, 0), ("trunc", 4, 16384)], named, "glob-metacharacters"))           # flip in a[1].bin (a1.bin intact)
+    eq = "equivalent-names-side-by-side"
+    out.append((NAME_LABELS[eq], 16384, EQUIVALENT_SIZES, False, name_damage(eq, [("flip", 1, B), ("rm", 5), ("flip", 13, 0)]), named, eq))
+    # identical twins: three damage sets, each confined to spellings that have an intact twin -- hidden from a checker that composes
+    # (NFC) / decomposes (NFD) / applies a compatibility form (NFKC, NFKD) to the recorded names
+    tw = "equivalent-names-identical-twins"
+    for dmg in ([("flip", 1, B), ("trunc", 6, 5), ("flip", 4, 1), ("flip", 3, 0)],        # the decomposed / singleton spellings damaged
+                [("flip", 0, 0), ("rm", 5), ("flip", 2, 4), ("flip", 3, 0)],              # the composed / singleton spellings damaged
+                [("flip", 7, 3)]):                                                         # the ligature spelling damaged
+        out.append((NAME_LABELS[tw], 16384, TWIN_SIZES, False, name_damage(tw, dmg), named, tw))
+    # a[1].bin flipped (a1.bin intact), st*r.txt short (star.txt intact), wh?t removed (what there), d[0-9]/f* flipped (d5/f1 intact)
+    gl = "glob-metacharacters"
+    for dmg in ([("flip", 0, 0)], [("trunc", 2, 3)], [("rm", 4)], [("flip", 6, B + 8)]):     # one pair at a time: each alone is hidden
+        out.append((NAME_LABELS[gl], 16384, GLOB_SIZES, False, name_damage(gl, dmg), named, gl))
+    out.append((NAME_LABELS["glob-payload-name"], 32768, [2 * B + 1, 9, 5, 6, 7, 2 * B], False,
+                name_damage("glob-payload-name", [("flip", 0, 2 * B), ("trunc", 5, B)]), named, "glob-payload-name"))
     if mode != "C05":
         for pl in (32768, 16384):
             for sizes, desc in absent_empty_cases(pl):
@@ -2080,10 +2128,13 @@ TEXT_RULE = (
     "(a) NAMES that are not stable under a transformation of text, created on disk exactly so (NAME_SHAPES): DECOMPOSED (NFD) file and "
     "directory names (cafe+U+0301.bin, re+U+0301sume+U+0301/...), a payload directory and a single-file payload whose own name is NFD, "
     "canonically / compatibility-equivalent names side by side as DIFFERENT files (U+00E9 and e+U+0301; U+00C5, U+212B and A+U+030A; a "
-    "directory in both forms; ligature fi, circled one, full-width letters) and names with glob / regular-expression metacharacters "
-    "(a[1].bin next to a1.bin, st*r, wh?t, {x,y}, [!a], d[0-9]/f*, payload p[1]); metafiles of the six creators and of the reference encoder "
-    "(v1, v1 with attr, v2, hybrid), payload root AND parent directory; intact must be 100, a flip / truncation / removal in one of the "
-    "equivalent files is judged piece by piece by the reference verifier.  (b) RECORDED HASH STRINGS THAT ARE VALID UTF-8 WITH A MULTI-BYTE "
+    "directory in both forms; ligature fi, circled one, full-width letters; OHM SIGN / U+03A9; MICRO SIGN / U+03BC) -- once with DIFFERENT "
+    "content per spelling (intact must be 100, damage judged piece by piece) and once with IDENTICAL content in every group of equivalent "
+    "spellings and three damage sets confined to the decomposed / the composed / the ligature spellings (hidden from a checker that "
+    "composes, decomposes or applies a compatibility form: it would report 100) -- and names with glob / regular-expression metacharacters "
+    "(a[1].bin next to an identical a1.bin, st*r.txt / star.txt, wh?t / what, d[0-9]/f* / d5/f1, each pair damaged alone in the "
+    "metacharacter name; payload p[1] with {x,y}, [!a], (z)+$, d*/b?.bin); metafiles of the six creators and of the reference encoder "
+    "(v1, v1 with attr, v2, hybrid), payload root AND parent directory; judged by the reference verifier.  (b) RECORDED HASH STRINGS THAT ARE VALID UTF-8 WITH A MULTI-BYTE "
     "CHARACTER (pyben returns str: the length and offsets of the text differ from those of the bytes; characters of 2, 3 and 4 bytes, text "
     "shorter than the bytes by exactly 1 and by more): v1 -- the WHOLE `pieces` string of 1, 2, 3 (thorough: up to 5) pieces at 16 KiB and 32 KiB piece length, "
     "single file / one file in a directory / the stream cut into several files incl. an empty one, kinds v1, reference v1 (+ attr); intact and "
